@@ -404,6 +404,15 @@ def generate_stats(repo: Path) -> str:
             "namespace Pamiq.GenStats\nopen Pamiq\n\n" + S.PRELUDE + "\n" + body + "\nend Pamiq.GenStats\n")
 
 
+def generate_training_tick(repo: Path) -> str:
+    """`TrainingThread.on_tick`: which trainer is run and how the cursor moves."""
+    import translate_skel as S
+    gen = S.SkelTr(repo, S.TRAINING_TICK_SPEC).generate(["on_tick"])
+    body = (TIES_DIR / "training_tick.lean").read_text().replace("--%GEN%\n", gen)
+    return ("set_option linter.unusedVariables false\nset_option linter.unusedSimpArgs false\n"
+            "namespace Pamiq.GenTT\n\n" + body + "\nend Pamiq.GenTT\n")
+
+
 def generate_handler(repo: Path) -> str:
     """`ControllerCommandHandler.manage_loop` / `stop_if_pause` (the loop guard of every background thread) interpreted
     over a background thread's graph of `Pamiq.Proto` (`Model/ProtoBg.lean`)."""
@@ -453,7 +462,8 @@ def check_class(res: SuiteResult, repo: Path, which: str = "TimeController") -> 
                              "ControlThread.on_tick": (generate_control_tick, "GenCT", "Pamiq.Tick", 5),
                              "ControlThread.pause_save": (generate_control_proto, "GenCTP", "Pamiq.Proto (ProtoCtl)", 7),
                              "ControllerCommandHandler": (generate_handler, "GenH", "Pamiq.Proto (ProtoBg)", 2),
-                             "InferenceThread.statistics": (generate_stats, "GenStats", "Pamiq.Bookkeep (guarded)", 1)}[which]
+                             "InferenceThread.statistics": (generate_stats, "GenStats", "Pamiq.Bookkeep (guarded)", 1),
+                             "TrainingThread.on_tick": (generate_training_tick, "GenTT", "Pamiq.Trainer (round robin)", 1)}[which]
     try:
         text = gen(repo)
     except T.Untranslatable as e:
@@ -559,6 +569,8 @@ def suite_for(*props: str):
             check_class(res, Path(REPO), "ControllerCommandHandler")
         if "C08" in props:
             check_class(res, Path(REPO), "InferenceThread.statistics")
+        if "C13" in props:
+            check_class(res, Path(REPO), "TrainingThread.on_tick")
         text, parts, done, skipped = generate(Path(REPO), props)
         for fn, why in skipped:
             res.evaluations += 1
@@ -644,6 +656,11 @@ if __name__ == "__main__":
                         "thread/threads/inference.py (reference copy of what every C08 run re-creates and re-checks; do not "
                         "edit). -/\n" + generate_stats(Path(REPO)))
         print("written", out8)
+        out9 = Path(LEAN_DIR) / "Pamiq" / "Gen" / "TrainingTickTie.lean"
+        out9.write_text("/- GENERATED by harness/gentie.py (translate_skel.py + harness/ties/training_tick.lean) from /repo's "
+                        "thread/threads/training.py (reference copy of what every C13 run re-creates and re-checks; do not "
+                        "edit). -/\n" + generate_training_tick(Path(REPO)))
+        print("written", out9)
         out = Path(LEAN_DIR) / "Pamiq" / "Gen" / "DecisionsTie.lean"
         out.parent.mkdir(exist_ok=True)
         out.write_text("/- GENERATED by harness/gentie.py from /repo's source (reference copy of what every run "
